@@ -180,3 +180,67 @@ def run(ctx):
                   "file under the final name; peers that fetch it validate every chunk CRC, finalize, and then fail to decompress - on every retry"
                   % sorted(set(c[1] for c in creators)), loc(b, creators[0][0]) if creators else loc(b, bi))
     ctx.floor("C17-d", n_ren, 1, "fs::rename onto final_snapshot_path (SnapshotAssembler::finalize)")
+
+
+# ---------------------------------------------------------------------------------------------
+# C17-e (added after seeded mutant C17-s1, two cooperating sites): the completeness test compares `received_chunks` with
+# the announced total, so (1) only chunks that passed the continuity check and are written may be counted, and (2) a chunk
+# that write_chunk rejected must abort the transfer - it may not be acknowledged and skipped.
+def _run_e(ctx):
+    F = ctx.F
+    wc = ctx.anchor(F.method, "SnapshotAssembler", "write_chunk")
+    if wc:
+        mb = F.main_body(wc)
+        conds = edge_conditions(mb)
+        incs = field_receiver_calls(F, mb, "SnapshotAssembler", "received_chunks", r"atomic::Atomic\w*::(fetch_add|store|swap|fetch_max)$")
+        for bi, blk in enumerate(mb.blocks):
+            for st in blk["st"]:
+                if "lhs" in st and any(f == "received_chunks" for (_a, f, _v) in core.place_fields(st["lhs"])):
+                    incs.append((bi, None))
+        ctx.floor("C17-e", len(incs), 1, "update of SnapshotAssembler.received_chunks in write_chunk")
+
+        def in_order(c):
+            return cmp_rel(F, c, lambda s: any(x[0] in ("param", "upvar") for x in s.sources) and not s.has_field("SnapshotAssembler", "expected_index"),
+                           lambda s: s.has_field("SnapshotAssembler", "expected_index")) == "=="
+        for n, (bi, _t) in enumerate(incs):
+            ok, wit, _ = guarded_by(mb, bi, in_order, conds)
+            ctx.check("C17-e", "%s#received_chunks[%d]#counts-only-in-order-chunks" % (fkey(wc), n), ok,
+                      "a chunk is counted only after it passed `index == expected_index`",
+                      "received_chunks is advanced for a chunk that did not pass the continuity check: duplicates / out-of-order chunks are counted, so "
+                      "`received_chunks == total_chunks` can hold for a stream with missing chunks (e.g. 0,1,1,<close> of 3)", loc(mb, bi), wit and bpath(mb, wit))
+    ps = ctx.anchor(F.method, "DefaultStateMachineHandler", "process_snapshot_stream")
+    if ps:
+        n = 0
+        for b in real_bodies(F, ps):
+            conds = None
+            for (bi, t) in calls_matching(b, r"SnapshotAssembler::write_chunk$"):
+                n += 1
+                if conds is None:
+                    conds = edge_conditions(b)
+                # everything that follows the call inside the loop (ACK construction, next recv) must lie behind its success edge
+                acks = [x for (x, si, st) in agg_sites(b, "SnapshotAck")] + [x for (x, _t) in calls_matching(b, r"SnapshotAssembler::(finalize|flush_to_disk)$")]
+                seen, _p = b.reach_from(bi)
+                acks = [x for x in acks if x in seen and x != bi]
+
+                def wrote(c):
+                    return c.kind == "discr" and (c.variants in ({"Continue"}, {"Ok"})) and cond_slice(F, c).has_call(r"SnapshotAssembler::write_chunk$")
+                bad = []
+                for x in acks:
+                    # reachable from the call without passing the success edge of its result?
+                    removed = frozenset(eid for eid, c in conds.items() if wrote(c))
+                    seen2, par2 = b.reach_from(bi, removed_edges=removed)
+                    if x in seen2:
+                        bad.append(x)
+                ctx.check("C17-e", "%s#write_chunk-error-aborts" % fkey(ps), bool(acks) and not bad,
+                          "an ACK / finalize is reachable from write_chunk only through its Ok result (`?`)",
+                          "a chunk rejected by write_chunk (out of order / duplicate) does not abort the transfer: the stream goes on, is acknowledged and "
+                          "can be finalized with a missing chunk", loc(b, bi))
+        ctx.floor("C17-e", n, 1, "write_chunk call in process_snapshot_stream")
+
+
+_run_before_e = run
+
+
+def run(ctx):
+    _run_before_e(ctx)
+    _run_e(ctx)
